@@ -6,6 +6,7 @@ import (
 	"bytes"
 	"context"
 	"errors"
+	"fmt"
 	"sync"
 
 	"github.com/btcsuite/btcd/btcec/v2"
@@ -13,6 +14,7 @@ import (
 	"github.com/btcsuite/btcd/btcutil"
 	"github.com/btcsuite/btcd/btcutil/psbt"
 	"github.com/btcsuite/btcd/chaincfg"
+	"github.com/btcsuite/btcd/chaincfg/chainhash"
 	"github.com/btcsuite/btcd/txscript"
 	"github.com/btcsuite/btcd/wire"
 	"github.com/btcsuite/btcwallet/wtxmgr"
@@ -21,6 +23,7 @@ import (
 	"github.com/lightninglabs/pool/terms"
 	"github.com/lightningnetwork/lnd/input"
 	"github.com/lightningnetwork/lnd/keychain"
+	"github.com/lightningnetwork/lnd/lnrpc"
 	"github.com/lightningnetwork/lnd/lnrpc/walletrpc"
 )
 
@@ -56,6 +59,10 @@ type c07World struct {
 	fundFail bool
 	fundReq  *walletrpc.FundPsbtRequest
 	released int
+
+	// input leases handed out by FundPsbt and the releases observed
+	leases   []*walletrpc.UtxoLease
+	releases []string // "<lockid hex>@<outpoint>"
 
 	walletWKH, walletTR btcutil.Address
 }
@@ -152,10 +159,13 @@ func (w *c07Wallet) NextAddr(_ context.Context, _ string,
 	return w.w.walletWKH, nil
 }
 
-func (w *c07Wallet) ReleaseOutput(context.Context, wtxmgr.LockID,
-	wire.OutPoint) error {
+func (w *c07Wallet) ReleaseOutput(_ context.Context, id wtxmgr.LockID,
+	op wire.OutPoint) error {
 
+	w.w.mu.Lock()
 	w.w.released++
+	w.w.releases = append(w.w.releases, fmt.Sprintf("%x@%v", id[:], op))
+	w.w.mu.Unlock()
 	return nil
 }
 
@@ -177,7 +187,55 @@ func (w *c07Wallet) FundPsbt(_ context.Context,
 	if !ok {
 		return nil, 0, nil, errors.New("verif-fund-fault")
 	}
-	return p, idx, nil, nil
+	// like lnd: every selected input is leased under a lock ID
+	var leases []*walletrpc.UtxoLease
+	for i, in := range p.UnsignedTx.TxIn {
+		id := make([]byte, 32)
+		id[0], id[1] = 0x4c, byte(i+1)
+		h := in.PreviousOutPoint.Hash
+		leases = append(leases, &walletrpc.UtxoLease{
+			Id: id,
+			Outpoint: &lnrpc.OutPoint{
+				TxidBytes:   h[:],
+				TxidStr:     h.String(),
+				OutputIndex: in.PreviousOutPoint.Index,
+			},
+			Expiration: 1,
+		})
+	}
+	w.w.leases = leases
+	return p, idx, leases, nil
+}
+
+// lockOutcome canonicalises what happened to the leased inputs: "none" (FundPsbt
+// handed out nothing), "held:k" (k leases, none released), "released:k" (each
+// lease released exactly once under its lock ID), else "partial:<released>/<k>".
+func (w *c07World) lockOutcome() string {
+	k := len(w.leases)
+	if k == 0 {
+		return "none"
+	}
+	if len(w.releases) == 0 {
+		return fmt.Sprintf("held:%d", k)
+	}
+	want := map[string]int{}
+	for _, l := range w.leases {
+		h, _ := chainhash.NewHash(l.Outpoint.TxidBytes)
+		want[fmt.Sprintf("%x@%v", l.Id, wire.OutPoint{Hash: *h, Index: l.Outpoint.OutputIndex})]++
+	}
+	ok := len(w.releases) == k
+	for _, r := range w.releases {
+		want[r]--
+	}
+	for _, c := range want {
+		if c != 0 {
+			ok = false
+		}
+	}
+	if ok {
+		return fmt.Sprintf("released:%d", k)
+	}
+	return fmt.Sprintf("partial:%d/%d", len(w.releases), k)
 }
 
 func (w *c07Wallet) SignPsbt(_ context.Context,
